@@ -24,7 +24,8 @@ def _run_tlc(workdir, cfg, dump=None, timeout=600):
     if dump:
         cmd += ["-dump", "dot,actionlabels", dump]
     cmd.append("MC_NreplSession.tla")
-    p = subprocess.run(cmd, cwd=workdir, stdout=subprocess.PIPE, stderr=subprocess.STDOUT, timeout=timeout)
+    env = dict(os.environ, JAVA_TOOL_OPTIONS=f"-Djava.io.tmpdir={workdir}")     # TLC's scratch files stay in the check's scratch directory
+    p = subprocess.run(cmd, cwd=workdir, stdout=subprocess.PIPE, stderr=subprocess.STDOUT, timeout=timeout, env=env)
     return p.stdout.decode("utf-8", "replace")
 
 
